@@ -1,4 +1,5 @@
 import PwVerif.Proofs.Serial
+import PwVerif.Proofs.BridgeC07Run
 /-!
 # C07 — Saving and loading returns an observationally identical graph
 
@@ -44,15 +45,24 @@ theorem withDetached_self (g : Node) : g.withDetached (g.core.forState none).det
 /-- FULL STATEMENT (repaired restore), plain pickle / cloudpickle: for every well-formed graph -/
 theorem C07_roundtrip : RoundTripStatement Cfg.repaired := by
   intro g hwf
-  refine ⟨_, load_save_node Cfg.repaired g hwf (fun h => by simp [Cfg.repaired, Cfg.anyPush] at h) none, ?_⟩
-  rw [obs_img Cfg.repaired g hwf (atMostOne_of_repaired _ rfl rfl rfl g), withDetached_self]
+  refine ⟨_, load_save_node Cfg.repaired g hwf (fun h => by simp [Cfg.repaired, Cfg.anyPush] at h)
+    (atMostOne_of_repaired _ rfl rfl rfl rfl g) none, ?_⟩
+  rw [obs_img Cfg.repaired g hwf (atMostOne_of_repaired _ rfl rfl rfl rfl g), withDetached_self]
 
 /-- FULL STATEMENT (repaired restore), file back end -/
 theorem C07_roundtrip_file : FileRoundTripStatement Cfg.repaired := by
   intro g hwf
   obtain ⟨g', h1, h2⟩ := fileLoad_save Cfg.repaired g hwf (fun h => by simp [Cfg.repaired, Cfg.anyPush] at h)
-    (atMostOne_of_repaired _ rfl rfl rfl g) none
+    (atMostOne_of_repaired _ rfl rfl rfl rfl g) none
   exact ⟨g', h1, by rw [h2, withDetached_self]⟩
+
+/-- the same for `Node.load` as it is since /repo dcaa030 (the loading node keeps its own — empty —
+detached path): a fresh parentless node that loads a saved root shows what the root showed -/
+theorem C07_roundtrip_file_own (g : Node) (hwf : WF g) (hdet : g.core.detached = none) :
+    ∃ g', fileLoadAt Cfg.repaired g.core.cls (some none) (save none g) = .ok g' ∧ obs [] g' = obs [] g := by
+  obtain ⟨g', h1, h2⟩ := fileLoadAt_save Cfg.repaired g hwf (fun h => by simp [Cfg.repaired, Cfg.anyPush] at h)
+    (atMostOne_of_repaired _ rfl rfl rfl rfl g) hdet
+  exact ⟨g', h1, h2 []⟩
 
 /-- … any number of times in a row (the result of a round trip is again a graph that round-trips) -/
 theorem C07_roundtrip_twice (g : Node) (hwf : WF g) :
@@ -62,7 +72,8 @@ theorem C07_roundtrip_twice (g : Node) (hwf : WF g) :
   obtain ⟨g₂, h2, o2⟩ := C07_roundtrip_file g hwf
   refine ⟨g₁, g₂, h1, ?_, o1, o2⟩
   have : g₁.core.cls = g.core.cls := by
-    have := load_save_node Cfg.repaired g hwf (fun h => by simp [Cfg.repaired, Cfg.anyPush] at h) none
+    have := load_save_node Cfg.repaired g hwf (fun h => by simp [Cfg.repaired, Cfg.anyPush] at h)
+      (atMostOne_of_repaired _ rfl rfl rfl rfl g) none
     rw [h1] at this
     injection this with e
     rw [e]; simp [Core.forState]
@@ -72,14 +83,14 @@ theorem C07_roundtrip_twice (g : Node) (hwf : WF g) :
 
 /-- PARTIAL (any variant, in particular the tree as it was found): the round trip is faithful for every well-formed graph in which no
 data input holds more than one connection, no signal output fires more than one receiver, no
-composite holds a cache (`AtMostOne`), and re-forging the value links pushes nothing new (`Settled`:
+composite holds a cache, no stored connection would be refused by today's hints (`AtMostOne`), and re-forging the value links pushes nothing new (`Settled`:
 linked values in step, no linked owner running) — for ANY combination of the four repairs the same
 theorem holds with the corresponding hypothesis dropped -/
 theorem C07_roundtrip_partial (cfg : Cfg) (g : Node) (hwf : WF g) (hone : AtMostOne cfg g)
     (hset : cfg.anyPush = true → Settled g) :
     (∃ g', load cfg (save none g) = .ok g' ∧ obs [] g' = obs [] g) ∧
     (∃ g', fileLoad cfg g.core.cls (save none g) = .ok g' ∧ obs [] g' = obs [] g) := by
-  refine ⟨⟨_, load_save_node cfg g hwf hset none, ?_⟩, ?_⟩
+  refine ⟨⟨_, load_save_node cfg g hwf hset hone none, ?_⟩, ?_⟩
   · rw [obs_img cfg g hwf hone, withDetached_self]
   · obtain ⟨g', h1, h2⟩ := fileLoad_save cfg g hwf hset hone none
     exact ⟨g', h1, by rw [h2, withDetached_self]⟩
@@ -136,23 +147,38 @@ theorem C07_child_alone (cfg : Cfg) (c : Node) (hwf : WF c) (hone : AtMostOne cf
     ∃ c', load cfg (save (some pp) c) = .ok c' ∧ c'.core.detached = some pp ∧
       obs [] c' = obs [] (c.withDetached (some pp)) ∧
       ∀ r ∈ obs [] c', ∃ q, r.path = [c.core.label] ++ q := by
-  refine ⟨_, load_save_node cfg c hwf hset (some pp), by simp [Core.forState], ?_, ?_⟩
+  refine ⟨_, load_save_node cfg c hwf hset hone (some pp), by simp [Core.forState], ?_, ?_⟩
   · rw [obs_img cfg c hwf hone]; simp [Core.forState]
   · intro r hr
     obtain ⟨q, e⟩ := obs_paths_below _ [] r hr
     exact ⟨q, by simpa [Core.forState] using e⟩
 
+/-! ## saving again -/
+
+/-- the file back end returns the LAST save of a location, whatever was saved there before and whichever
+of the two formats either save needed (so `load` after `save; edit; save` is the round trip of the
+edited graph, to which `C07_roundtrip_file` applies) -/
+theorem C07_last_save_wins (s : Slots) (imp : Bool) (p : PNode) : (s.save true imp p).read = some p := by
+  cases imp <;> simp [Slots.save, Slots.read]
+
+/-- … which is lost if a save leaves the file of the other format behind: a location first saved by plain
+pickle and then, after a node class that cannot be imported was added, by the cloudpickle fallback
+reads back the OLD graph -/
+theorem C07_stale_file_shadows (old new : PNode) :
+    ((Slots.save false ⟨none, none⟩ true old).save false false new).read = some old := by
+  simp [Slots.save, Slots.read]
+
 /-! ## loading in place -/
 
 /-- a child of any composite that saves its state and loads it again IN PLACE (`child.save()` …
 `child.load()`, or a child constructed with `parent=…, autoload=…`): with the repaired `Node.load`
-(`keepPlace`) the parent shows exactly what it showed — the child is still its child, still connected
+(`keepPlace = 2`) the parent shows exactly what it showed — the child is still its child, still connected
 and linked as before -/
 theorem C07_load_in_place (cfg : Cfg) (c : Core) (ch : List Node) (dg sg : CG) (l : Lbl) (child : Node)
     (hnd : (childLabels ch).Nodup) (hf : ch.find? (fun x => decide (x.core.label = l)) = some child)
     (hwf : WF child) (hdet : child.core.detached = none) (hone : AtMostOne cfg child)
     (hset : cfg.anyPush = true → Settled child) (pp : Option Path) :
-    ∃ g', loadInPlace cfg true pp (.mk c ch dg sg) l = .ok g' ∧ ∀ p, obs p g' = obs p (.mk c ch dg sg) :=
+    ∃ g', loadInPlace cfg 2 pp (.mk c ch dg sg) l = .ok g' ∧ ∀ p, obs p g' = obs p (.mk c ch dg sg) :=
   loadInPlace_keeps cfg c ch dg sg l child hnd hf hwf hdet hone hset pp
 
 /-! ## running again -/
@@ -166,6 +192,27 @@ theorem C07_rerun (g : Node) (hwf : WF g) (d : Option Path) {σ} (sem : Signal.S
   have h := toGraph_img Cfg.repaired rfl rfl g hwf d
   exact ⟨h, by rw [h]⟩
 
+/-- EQUAL RUNS, DAG-automated composites (C01's execution model `Exec`): the round-tripped composite
+induces the same `Exec.Dag`, so from the same start EVERY schedule — any interleaving of starts,
+signal deliveries and executor completions, for any assignment of executors, any set of failing
+nodes, either failure-handling variant — is enabled for both or for neither and ends in the same
+state: same outputs, call counts and arguments, `provenance_by_execution` / `_by_completion`,
+collected errors -/
+theorem C07_rerun_dag (g : Node) (hwf : WF g) (d : Option Path) (ecfg : Exec.Cfg) (onExec fails : Nat → Bool)
+    (acts : List Exec.Act) :
+    Exec.runActs ecfg (toDag (img Cfg.repaired d g) onExec fails) (Exec.init (toDag (img Cfg.repaired d g) onExec fails)) acts =
+    Exec.runActs ecfg (toDag g onExec fails) (Exec.init (toDag g onExec fails)) acts := by
+  rw [toDag_img Cfg.repaired rfl rfl d g hwf]
+
+/-- EQUAL RUNS, hand-wired composites (C02's scheduler `Signal.compositeRun`) with the children
+behaving as the graph says (`dataSem`: fetch through the data connections in list order, compute,
+store, emit): same store of output values, same firing order, same refused/failed children — from
+every initial store and trigger state, for every fuel -/
+theorem C07_rerun_store (g : Node) (hwf : WF g) (d : Option Path) (fuel : Nat) (s0 : Signal.S (Addr → Val)) :
+    Signal.compositeRun (dataSem (img Cfg.repaired d g)) (toGraph (img Cfg.repaired d g)) fuel s0 =
+    Signal.compositeRun (dataSem g) (toGraph g) fuel s0 := by
+  rw [dataSem_img Cfg.repaired rfl d g hwf, toGraph_img Cfg.repaired rfl rfl g hwf d]
+
 /-- … and every child input fetches the same value (first connection holding data) -/
 theorem C07_refetch (cfg : Cfg) (g : Node) (hwf : WF g) (hone : AtMostOne cfg g) (d : Option Path) :
     ∀ a ∈ inDom g.children, fetchVal (img cfg d g) a = fetchVal g a := fetchVal_img cfg g hwf hone d
@@ -178,7 +225,7 @@ def chn (l : Lbl) (x : Val) : DChan := ⟨l, x, true⟩
 def core0 (label cls : Nat) (kind : Kind) (ins outs : List DChan) : Core :=
   { label, cls, kind, ins, outs, sigIns := [0, 1], sigOuts := [0, 1], received := [], running := false,
     failed := false, exec := .none, bodyExec := .none, cached := none, starting := [], inLinks := [],
-    outLinks := [], detached := none, prov := [] }
+    outLinks := [], detached := none, prov := [], refused := [] }
 def noC : CG := CG.ofTables [] []
 def leaf (label cls : Nat) (ins outs : List DChan) : Node := .mk (core0 label cls .leaf ins outs) [] noC noC
 
@@ -230,6 +277,23 @@ theorem C07_restore_reverses_priority :
     shows Cfg.pinned w1 ≠ some (obs [] w1) ∧
     after Cfg.pinned w1 (fun g' => (g'.data.inl (3, 0), fetchVal g' (3, 0))) = some ([(1, 0), (2, 0)], some (v 11)) ∧
     w1.data.inl (3, 0) = [(2, 0), (1, 0)] ∧ fetchVal w1 (3, 0) = some (v 12) := by decide
+
+/-- W9 — hand-wired macro: `a.ran >> c.run`, start `a`; `c.a ← a.o` then `c.a ← b.o` -/
+def w9 : Node :=
+  .mk { core0 0 100 .macro [] [] with starting := [1] }
+    [leaf 1 1 [] [chn 0 .nd], leaf 2 2 [] [chn 0 (v 12)], leaf 3 3 [chn 0 .nd] [chn 0 .nd]]
+    (CG.ofTables [((3, 0), [(2, 0), (1, 0)])] [((1, 0), [(3, 0)]), ((2, 0), [(3, 0)])])
+    (CG.ofTables [((3, 0), [(1, 0)])] [((1, 0), [(3, 0)])])
+
+/-- what `c` has computed after the composite ran, `b.o` holding 12 -/
+def cAfterRun (g : Node) : Val :=
+  (Signal.compositeRun (dataSem g) (toGraph g) 5
+    (Signal.S.init (fun a => if a = (2, 0) then v 12 else .nd) fun _ => [])).store (3, 0)
+
+/-- non-vacuity of `C07_rerun_store`, and the defect it excludes: the run of w9 and of its repaired copy
+computes `c = f3(12)` from `b`; the copy with reversed priority computes `f3(f1())` from `a` -/
+example : cAfterRun w9 = .t [3, 2, 12] ∧ after Cfg.repaired w9 cAfterRun = some (.t [3, 2, 12]) ∧
+    after Cfg.pinned w9 cAfterRun = some (.t [3, 2, 1]) := by decide
 
 /-- hence the full statement is FALSE of the tree as it was found -/
 theorem C07_pinned_statement_false : ¬ RoundTripStatement Cfg.pinned := by
@@ -380,16 +444,35 @@ theorem C07_cached_io_view_drops_link :
 with the detached path of a node that has no parent (while `w` still lists it), its own connection
 list is empty, but `a.o` and `b.o` still list it — the connection graph is no longer mutual; with
 `keepPlace` the workflow shows what it showed -/
-def inPlaceRead {α} (keep : Bool) (f : Node → α) : Option α :=
+def inPlaceRead {α} (keep : Nat) (f : Node → α) : Option α :=
   match loadInPlace Cfg.repaired keep none w1 3 with
   | .ok g => some (f g)
   | .error _ => none
 
 theorem C07_load_in_place_orphans :
-    inPlaceRead false (fun g => g.data.inl (3, 0)) = some [] ∧
-    inPlaceRead false (fun g => g.data.outl (1, 0)) = some [(3, 0)] ∧
-    inPlaceRead false (fun g => g.children.map fun x => x.core.detached.isSome) = some [false, false, true] ∧
-    inPlaceRead false (obs []) ≠ some (obs [] w1) ∧ inPlaceRead true (obs []) = some (obs [] w1) := by decide
+    inPlaceRead 0 (fun g => g.data.inl (3, 0)) = some [] ∧
+    inPlaceRead 0 (fun g => g.data.outl (1, 0)) = some [(3, 0)] ∧
+    inPlaceRead 0 (fun g => g.children.map fun x => x.core.detached.isSome) = some [false, false, true] ∧
+    inPlaceRead 0 (obs []) ≠ some (obs [] w1) ∧
+    -- the parent kept (dcaa030), the connections still lost:
+    inPlaceRead 1 (fun g => g.children.map fun x => x.core.detached.isSome) = some [false, false, false] ∧
+    inPlaceRead 1 (fun g => (g.data.inl (3, 0), g.data.outl (1, 0))) = some ([], [(3, 0)]) ∧
+    inPlaceRead 1 (obs []) ≠ some (obs [] w1) ∧
+    inPlaceRead 2 (obs []) = some (obs [] w1) := by decide
+
+/-- W10 — `b.i ← a.os` was accepted while `b.i` was not strict; it is strict again now, so the hint
+check would refuse the connection today -/
+def w10 : Node :=
+  .mk { core0 0 100 .workflow [] [] with refused := [((2, 0), (1, 0))] }
+    [leaf 1 1 [] [chn 0 (v 1)], leaf 2 2 [chn 0 (v 2)] [chn 0 .nd]]
+    (CG.ofTables [((2, 0), [(1, 0)])] [((1, 0), [(2, 0)])]) noC
+
+/-- KF-C07-10: re-creating the stored connections with `connect` validates the hints again: a graph
+whose strictness (or hints) changed after connecting can be saved but not loaded
+(`ChannelConnectionError`); re-created as stored it round-trips -/
+theorem C07_refused_connection_unloadable :
+    errorOf { Cfg.repaired with revalidate := true } w10 = some .conn ∧
+    shows Cfg.repaired w10 = some (obs [] w10) := by decide
 
 /-- non-vacuity of the partial statement on the pinned code: a nested graph (workflow ⊃ macro with
 value links ⊃ leaves) in a partly run, partly failed state with `NOT_DATA`, executor instructions
@@ -430,11 +513,11 @@ theorem wf_exG : WF exG := by
 
 theorem one_exG : AtMostOne Cfg.pinned exG := by
   simp only [exG, exInner, leaf, AtMostOne, AtMostOneL, noC, CG.ofTables]
-  refine ⟨fun _ => short_of_table _ (by decide), fun _ => short_of_table _ (by decide), fun _ _ => rfl, ?_, ?_, trivial⟩
-  · exact ⟨fun _ => short_of_table _ (by decide), fun _ => short_of_table _ (by decide), fun _ _ => rfl, trivial⟩
-  · refine ⟨fun _ => short_of_table _ (by decide), fun _ => short_of_table _ (by decide), fun _ _ => rfl, ?_, ?_, trivial⟩
-    · exact ⟨fun _ => short_of_table _ (by decide), fun _ => short_of_table _ (by decide), fun _ _ => rfl, trivial⟩
-    · exact ⟨fun _ => short_of_table _ (by decide), fun _ => short_of_table _ (by decide), fun _ _ => rfl, trivial⟩
+  refine ⟨fun _ => short_of_table _ (by decide), fun _ => short_of_table _ (by decide), fun _ _ => rfl, fun _ => rfl, ?_, ?_, trivial⟩
+  · exact ⟨fun _ => short_of_table _ (by decide), fun _ => short_of_table _ (by decide), fun _ _ => rfl, fun _ => rfl, trivial⟩
+  · refine ⟨fun _ => short_of_table _ (by decide), fun _ => short_of_table _ (by decide), fun _ _ => rfl, fun _ => rfl, ?_, ?_, trivial⟩
+    · exact ⟨fun _ => short_of_table _ (by decide), fun _ => short_of_table _ (by decide), fun _ _ => rfl, fun _ => rfl, trivial⟩
+    · exact ⟨fun _ => short_of_table _ (by decide), fun _ => short_of_table _ (by decide), fun _ _ => rfl, fun _ => rfl, trivial⟩
 
 theorem settled_exG : Settled exG := by
   simp only [exG, exInner, leaf, Settled, SettledL]
@@ -467,12 +550,15 @@ end PwVerif.C07
 
 #print axioms PwVerif.C07.C07_roundtrip
 #print axioms PwVerif.C07.C07_roundtrip_file
+#print axioms PwVerif.C07.C07_roundtrip_file_own
 #print axioms PwVerif.C07.C07_roundtrip_twice
 #print axioms PwVerif.C07.C07_roundtrip_partial
 #print axioms PwVerif.C07.C07_unordered_sides
 #print axioms PwVerif.C07.C07_child_alone
 #print axioms PwVerif.C07.C07_rerun
 #print axioms PwVerif.C07.C07_refetch
+#print axioms PwVerif.C07.C07_rerun_dag
+#print axioms PwVerif.C07.C07_rerun_store
 #print axioms PwVerif.C07.C07_restore_reverses_priority
 #print axioms PwVerif.C07.C07_pinned_statement_false
 #print axioms PwVerif.C07.C07_file_double_restore
@@ -484,5 +570,8 @@ end PwVerif.C07
 #print axioms PwVerif.C07.C07_foreign_connection_dropped
 #print axioms PwVerif.C07.C07_loaded_macro_not_resavable
 #print axioms PwVerif.C07.C07_cached_io_view_drops_link
+#print axioms PwVerif.C07.C07_last_save_wins
+#print axioms PwVerif.C07.C07_stale_file_shadows
 #print axioms PwVerif.C07.C07_load_in_place
 #print axioms PwVerif.C07.C07_load_in_place_orphans
+#print axioms PwVerif.C07.C07_refused_connection_unloadable
